@@ -205,6 +205,34 @@ type Printer struct {
 	apps     map[string][]*Node
 	appVars  map[int]string
 	declared map[string]bool
+	log      []printLog
+}
+
+type printLog struct {
+	kind byte // 'n' node defined, 'v' variable declared, 'a' application declared
+	id   int
+	name string
+}
+
+// Mark returns a position to which Rollback can return (for solvers with push/pop scopes).
+func (p *Printer) Mark() int { return len(p.log) }
+
+// Rollback forgets every definition made since the mark.
+func (p *Printer) Rollback(mark int) {
+	for i := len(p.log) - 1; i >= mark; i-- {
+		e := p.log[i]
+		delete(p.done, e.id)
+		switch e.kind {
+		case 'v':
+			delete(p.declared, e.name)
+			p.Vars = p.Vars[:len(p.Vars)-1]
+		case 'a':
+			l := p.apps[e.name]
+			p.apps[e.name] = l[:len(l)-1]
+			delete(p.appVars, e.id)
+		}
+	}
+	p.log = p.log[:mark]
 }
 
 func NewPrinter(b *B, sb *strings.Builder) *Printer {
@@ -268,7 +296,10 @@ func (p *Printer) Define(root *Node) string {
 			continue
 		}
 		p.emit(n)
-		p.done[n.ID] = true
+		if !p.done[n.ID] {
+			p.done[n.ID] = true
+			p.log = append(p.log, printLog{kind: 'n', id: n.ID})
+		}
 		stack = stack[:len(stack)-1]
 	}
 	return p.ref(root)
@@ -284,6 +315,7 @@ func (p *Printer) emit(n *Node) {
 		p.declared[n.Name] = true
 		fmt.Fprintf(sb, "(declare-const |%s| %s)\n", n.Name, sortStr(n.W))
 		p.Vars = append(p.Vars, n)
+		p.log = append(p.log, printLog{kind: 'v', id: n.ID, name: n.Name})
 		if rc := p.b.RangeConstraint(n); rc != nil {
 			p.done[n.ID] = true
 			fmt.Fprintf(sb, "(assert %s)\n", p.Define(rc))
@@ -309,6 +341,7 @@ func (p *Printer) emit(n *Node) {
 			fmt.Fprintf(sb, "(assert (=> %s (= |%s| %s)))\n", cond, name, p.appVars[o.ID])
 		}
 		p.apps[n.Name] = append(p.apps[n.Name], n)
+		p.log = append(p.log, printLog{kind: 'a', id: n.ID, name: n.Name})
 		return
 	}
 	fmt.Fprintf(sb, "(define-fun n%d () %s ", n.ID, sortStr(n.W))
